@@ -431,6 +431,8 @@ SPECS = {
         assumptions=["precisions above 65535 are rejected by core::fmt itself and are not generated"],
     ),
     "C13": dict(
+        also_custom=custom.corpus_for("C13"),
+        also_families=("corpus",),
         engine="cmpfmt",
         technique="reference-model monitor: every comparison operator, a recording Hasher, map lookups through Borrow<[T]> and Debug under 26 literal + 70 dynamic flag combinations, against the slice of the same elements",
         level="exploration",
@@ -448,6 +450,8 @@ SPECS = {
         assumptions=["alphabets of 3-4 values per element type for the exhaustive part"],
     ),
     "C08": dict(
+        also_custom=custom.corpus_for("C08"),
+        also_families=("corpus",),
         engine="order",
         technique="call-order recorder: closures and element Clone/Default impls log (call number, arguments); compared with the same computation on slices for every receiver/argument form",
         level="exploration",
@@ -466,8 +470,8 @@ SPECS = {
         assumptions=["N from the lattice"],
     ),
     "C10": dict(
-        also_custom=custom.c18_custom,
-        also_families=("chunks_from_slice", "from_chunks", "ref.chunks_from_slice"),
+        also_custom=custom.both(custom.c18_custom, custom.corpus_for("C10")),
+        also_families=("chunks_from_slice", "from_chunks", "ref.chunks_from_slice", "corpus"),
         engine="chunks",
         technique="address/extent monitor on both parts for every slice length L in 0..=4N+3 + identity read-back + write-through with guard elements; Miri for out-of-bounds views; const-evaluator half via generated const items",
         level="exploration",
@@ -528,6 +532,8 @@ SPECS = {
         assumptions=["element layouts with size > 64 or alignment > 4096 are not instantiated", "large lengths only where N*size < 2^61 (rustc rejects larger objects)"],
     ),
     "C02": dict(
+        also_custom=custom.corpus_for("C02"),
+        also_families=("corpus",),
         engine="views",
         technique="address/extent monitor on every returned reference + write-through/read-back across all views with canaries + outcome matrix for slice reinterpretation; ledger for by-value conversions; Miri/ASan",
         level="exploration",
@@ -547,6 +553,8 @@ SPECS = {
         assumptions=["N from the lattice; large N sample the write indices (0, 1, N/3, N/2, N-2, N-1)"],
     ),
     "C15": dict(
+        also_custom=custom.corpus_for("C15"),
+        also_families=("corpus",),
         engine="heap",
         technique="recording-global-allocator monitor (block identity, release, new-block size) + Vec/slice reference model + ledger; small-stack child processes for multi-MiB boxed constructors; Miri/ASan",
         level="exploration",
@@ -586,6 +594,8 @@ SPECS = {
         assumptions=["N in {0,1,2,3,8,17}", "allocation-failure children are not run under Miri (no process spawning there)"],
     ),
     "C07": dict(
+        also_custom=custom.corpus_for("C07"),
+        also_families=("corpus",),
         engine="collect",
         technique="scripted-source monitor: recording iterators (poll log, hint log) over the grid N x count x hint policy x fused x panic index; oracle from what the script delivered; ledger for pulled items",
         level="exploration",
@@ -625,6 +635,8 @@ SPECS = {
         assumptions=["array lengths in histories are 0..=8 (the closed universe of the generated typed dispatch)", "panic-free histories only (C04/C05 cover panics)"],
     ),
     "C09": dict(
+        also_custom=custom.corpus_for("C09"),
+        also_families=("corpus",),
         engine="seqops",
         technique="reference-model monitor (Vec push/insert/pop/remove/split_at/extend/swap_remove) + address/extent checks + ownership ledger, exhaustive for N<=8; Miri/ASan for out-of-bounds copies",
         level="exploration",
@@ -643,6 +655,8 @@ SPECS = {
         assumptions=["lengths above 8 are covered by boundary shapes only (thorough tier)"],
     ),
     "C06": dict(
+        also_custom=custom.corpus_for("C06"),
+        also_families=("corpus",),
         engine="iterq",
         technique="reference-model monitor (VecDeque + [T;N]::into_iter twins) over exhaustive one-step transitions and seeded random sequences; ledger for overlap/skip; Miri/ASan",
         level="exploration",
